@@ -235,7 +235,19 @@ func shrink(lo, hi int64, ops []op, class string) []op {
 type c20 struct {
 	r        *hk.Run
 	reported map[string]bool
-	hangs    int // calls that never returned; after maxHangs the remaining streams are skipped
+	hangs    int           // calls that never returned; after maxHangs the remaining streams are skipped
+	pending  []pendingTree // tree cases not yet written: spread over the case files, one per file
+}
+
+type pendingTree struct{ format, desc string }
+
+func (c *c20) flushTree() {
+	if len(c.pending) == 0 {
+		return
+	}
+	t := c.pending[0]
+	c.pending = c.pending[1:]
+	c.r.AddCase(fmt.Sprintf(t.format, c.r.NextID()), t.desc)
 }
 
 const maxHangs = 2
@@ -295,6 +307,9 @@ func (c *c20) emit(stream string, lo, hi int64, ops []op, drain bool) {
 		c.report(lo, hi, ops, out)
 	}
 	id := r.NextID()
+	if id%400 == 200 {
+		defer c.flushTree()
+	}
 	os := coqOps(ops)
 	desc := fmt.Sprintf("NewGenerator(%d,%d): %s", lo, hi, strings.Join(os, "; "))
 	if hang {
@@ -381,56 +396,68 @@ func (w *walker) rec(d int, path []op, h uint64) uint64 {
 	return h
 }
 
-func (c *c20) tree(lo, hi int64, depth int) {
+// tree: the oracle walks every history up to depth dOracle on the implementation; the
+// digest compared with the model covers depth dModel <= dOracle (the model needs about
+// 20 microseconds per history)
+func (c *c20) tree(lo, hi int64, dOracle, dModel int) {
 	r := c.r
-	if c.hangs >= maxHangs {
-		r.Streams["skipped_after_hangs"]++
-		return
-	}
-	w := &walker{c: c, lo: lo, hi: hi, al: alphabet(lo, hi)}
-	var digest uint64
-	done := make(chan struct{})
-	go func() {
-		defer close(done)
-		digest = w.rec(depth, nil, 7)
-	}()
-	tick := time.NewTicker(500 * time.Millisecond)
-	defer tick.Stop()
-	last, stale := uint64(0), 0
-	hung := false
-loop:
-	for {
-		select {
-		case <-done:
-			break loop
-		case <-tick.C:
-			if p := w.progress.Load(); p == last {
-				stale++
-				if stale >= 6 { // no history finished for 3 s
-					hung = true
-					break loop
+	for pass, depth := range []int{dOracle, dModel} {
+		if pass == 1 && dModel == dOracle {
+			break
+		}
+		if c.hangs >= maxHangs {
+			r.Streams["skipped_after_hangs"]++
+			return
+		}
+		w := &walker{c: c, lo: lo, hi: hi, al: alphabet(lo, hi)}
+		var digest uint64
+		done := make(chan struct{})
+		go func() {
+			defer close(done)
+			digest = w.rec(depth, nil, 7)
+		}()
+		tick := time.NewTicker(500 * time.Millisecond)
+		last, stale := uint64(0), 0
+		hung := false
+	loop:
+		for {
+			select {
+			case <-done:
+				break loop
+			case <-tick.C:
+				if p := w.progress.Load(); p == last {
+					stale++
+					if stale >= 6 { // no history finished for 3 s
+						hung = true
+						break loop
+					}
+				} else {
+					last, stale = p, 0
 				}
-			} else {
-				last, stale = p, 0
 			}
 		}
+		tick.Stop()
+		if hung {
+			c.hangs++
+			ops, _ := w.cur.Load().([]op)
+			c.report(lo, hi, ops, outcome{bad: len(ops) - 1, class: "hang", what: "a call did not return"})
+			r.Streams["exhaustive_tree_hung"]++
+			return
+		}
+		if w.firstBad != nil {
+			c.report(lo, hi, w.badOps, *w.firstBad)
+		}
+		if depth == dModel {
+			c.pending = append(c.pending, pendingTree{
+				fmt.Sprintf("CTree %%d %s %s %s %d %d", z(lo), z(hi), hk.CoqList(coqOps(w.al)), depth, digest),
+				fmt.Sprintf("all histories of depth <= %d over %d operations on NewGenerator(%d,%d)", depth, len(w.al), lo, hi)})
+		}
+		if pass == 0 {
+			r.Evals += w.nodes
+			r.Streams["exhaustive_tree_histories"] += w.nodes
+			r.Dist[fmt.Sprintf("tree_width_%02d_depth_%d", width(lo, hi), depth)] += w.nodes
+		}
 	}
-	if hung {
-		c.hangs++
-		ops, _ := w.cur.Load().([]op)
-		c.report(lo, hi, ops, outcome{bad: len(ops) - 1, class: "hang", what: "a call did not return"})
-		r.Streams["exhaustive_tree_hung"]++
-		return
-	}
-	if w.firstBad != nil {
-		c.report(lo, hi, w.badOps, *w.firstBad)
-	}
-	id := r.NextID()
-	r.AddCase(fmt.Sprintf("CTree %d %s %s %s %d %d", id, z(lo), z(hi), hk.CoqList(coqOps(w.al)), depth, digest),
-		fmt.Sprintf("all histories of depth <= %d over %d operations on NewGenerator(%d,%d)", depth, len(w.al), lo, hi))
-	r.Evals += w.nodes
-	r.Streams["exhaustive_tree_histories"] += w.nodes
-	r.Dist[fmt.Sprintf("tree_width_%02d_depth_%d", width(lo, hi), depth)] += w.nodes
 }
 
 func runC20(r *hk.Run) {
@@ -467,15 +494,15 @@ func runC20(r *hk.Run) {
 
 	// (2) finite directed set: every history up to a depth over a small alphabet, widths 1..4
 	type tr struct {
-		lo, hi int64
-		dq, dt int
+		lo, hi         int64
+		oq, mq, ot, mt int // oracle / model depth at quick, at thorough
 	}
-	trees := []tr{{0, 0, 5, 6}, {-1, 0, 5, 6}, {5, 7, 4, 6}, {-2, 1, 4, 6}}
+	trees := []tr{{0, 0, 5, 5, 6, 6}, {-1, 0, 5, 5, 6, 6}, {5, 7, 5, 4, 6, 5}, {-2, 1, 5, 4, 6, 5}}
 	if r.Thorough() {
-		trees = append(trees, tr{math.MaxInt64 - 2, math.MaxInt64, 5, 5}, tr{math.MinInt64, math.MinInt64 + 1, 5, 5})
+		trees = append(trees, tr{math.MaxInt64 - 2, math.MaxInt64, 5, 5, 5, 5}, tr{math.MinInt64, math.MinInt64 + 1, 5, 5, 5, 5})
 	}
 	for _, t := range trees {
-		c.tree(t.lo, t.hi, r.N(t.dq, t.dt))
+		c.tree(t.lo, t.hi, r.N(t.oq, t.ot), r.N(t.mq, t.mt))
 	}
 	// histories up to depth 2 (3 for width <= 2) also as individual cases
 	for _, t := range trees[:4] {
@@ -573,5 +600,8 @@ func runC20(r *hk.Run) {
 			}
 			c.emit("degenerate", b[0], b[1], ops, false)
 		}
+	}
+	for len(c.pending) > 0 {
+		c.flushTree()
 	}
 }
